@@ -239,6 +239,7 @@ func runC04(w *World, r *Report) {
 	r.Rule("rlayout", "every specified field is read from its specified offset, width and byte order into the mapped Go field", 250)
 	r.Rule("prealloc", "decoders that rely on preallocated receiver slices only ever get receivers built by the constructor", 5)
 	r.Rule("retain", "elements decoded in list loops are stored into the receiver", 8)
+	r.Rule("window", "a bounded window handed to a child decoder is exactly the element's declared length", 10)
 	r.Rule("fresh", "a value decoded into inside a list loop is new in each iteration (or fully overwritten by the child decoder)", 10)
 	codes, err := loadCodes()
 	if err != nil {
@@ -572,6 +573,7 @@ func runC04(w *World, r *Report) {
 		if dfi := w.FuncOf(k.Unmarshal); dfi != nil {
 			retainRule(w, r, dfi)
 			freshRule(w, r, dfi)
+			windowRule(w, r, dfi)
 		}
 	}
 }
@@ -699,4 +701,119 @@ func insideIf(fn *ast.FuncDecl, pos token.Pos) bool {
 		return true
 	})
 	return in
+}
+
+// windowRule: where a decoder hands a child decoder an explicitly bounded window of its input, the window is
+// exactly the element's declared extent: its width is a declared length read from the input (or a size the
+// already decoded element reports), never a padded or clamped amount. A child that consumes everything it is
+// given (a bitmap list, an opaque body) would otherwise take the padding or the next element for its own.
+func windowRule(w *World, r *Report, dfi *FuncInfo) {
+	ds := w.Interpret(dfi, "decode")
+	if ds == nil || ds.In == nil || ds.In.SliceHi == nil {
+		return
+	}
+	info := dfi.Pkg.TypesInfo
+	n := 0
+	ast.Inspect(dfi.Decl.Body, func(nd ast.Node) bool {
+		call, ok := nd.(*ast.CallExpr)
+		if !ok {
+			return true
+		}
+		fn := w.calleeOf(info, call)
+		if fn == nil {
+			return true
+		}
+		name := fn.Name()
+		if name != "UnmarshalBinary" && !strings.HasPrefix(name, "Decode") && name != "Parse" {
+			return true
+		}
+		for _, a := range call.Args {
+			sx, ok := unparen(a).(*ast.SliceExpr)
+			if !ok || sx.High == nil {
+				continue
+			}
+			hi, ok1 := ds.In.SliceHi[sx]
+			lo, ok2 := ds.In.SliceOff[sx]
+			if !ok1 || !ok2 {
+				continue
+			}
+			n++
+			inst := fmt.Sprintf("%s#%d", types.ExprString(call.Fun), n)
+			wd := stripWraps(hi.Sub(lo), map[string]bool{})
+			bad := ""
+			wd.HasAtom(func(at *Atom) bool {
+				switch at.Kind {
+				case "round8", "min", "ite", "div", "mul", "opq":
+					bad = at.Key()
+					return true
+				}
+				return false
+			})
+			if bad != "" {
+				if why := consumesAll(w, w.FuncOf(fn)); why == "" {
+					r.OK("window", dfi.Key, inst, w.Pos(call.Pos()), fmt.Sprintf("window of %s bytes is wider than a declared length, but %s delimits itself (no read of it depends on the length of its input beyond the guards)", wd, fn.Name()), true)
+					continue
+				} else {
+					bad += "; the child " + why
+				}
+			}
+			switch {
+			case bad != "":
+				r.Fail(VViolation, "window", dfi.Key, inst, w.Pos(call.Pos()), fmt.Sprintf("the child decoder is handed %s bytes: the window is not the element's declared length (it contains %s), so padding or the following element falls inside it", wd, bad))
+			case wd.IsConst():
+				r.OK("window", dfi.Key, inst, w.Pos(call.Pos()), fmt.Sprintf("fixed window of %d bytes", wd.C), false)
+			default:
+				r.OK("window", dfi.Key, inst, w.Pos(call.Pos()), fmt.Sprintf("window of %s bytes: a declared length taken from the input", wd), true)
+			}
+		}
+		return true
+	})
+}
+
+// consumesAll reports why a decoder's result depends on how much input it is handed (beyond rejecting short
+// input): a loop that runs to the end of the input, or a copy/allocation sized by the input length. Empty:
+// the decoder delimits itself. Unknown callees are taken to consume everything.
+func consumesAll(w *World, fi *FuncInfo) string {
+	if fi == nil {
+		return "is not a module function with a body (taken to consume its whole input)"
+	}
+	ds := w.Interpret(fi, "decode")
+	if ds == nil {
+		return "could not be summarised"
+	}
+	hasLenP := func(t *Term) bool {
+		return t != nil && t.HasAtom(func(a *Atom) bool { return a.Kind == "len" && a.Path == "P" })
+	}
+	for _, l := range ds.Loops {
+		if strings.Contains(l.Cond, "len(P)") {
+			return "loops until its input is exhausted (" + w.Pos(l.Pos) + ")"
+		}
+		if l.CondE != nil {
+			found := false
+			ast.Inspect(l.CondE, func(n ast.Node) bool {
+				if id, ok := n.(*ast.Ident); ok {
+					if v, ok := ds.Final.vars[fi.Pkg.TypesInfo.Uses[id]]; ok {
+						if iv, ok := v.(IntV); ok && hasLenP(iv.T) {
+							found = true
+						}
+					}
+				}
+				return true
+			})
+			if found {
+				return "loops until its input is exhausted (" + w.Pos(l.Pos) + ")"
+			}
+		}
+	}
+	for _, c := range ds.Copies {
+		if hasLenP(c.SrcLen) || hasLenP(c.DstLen) {
+			return "copies an amount that depends on the length of its input (" + w.Pos(c.Pos) + ")"
+		}
+	}
+	for _, a := range ds.Allocs {
+		if hasLenP(a.Size) {
+			return "allocates an amount that depends on the length of its input (" + w.Pos(a.Pos) + ")"
+		}
+	}
+	return ""
 }
